@@ -263,7 +263,7 @@ def wl_delays(ctx, idx, rng):
         a, _ = ctx.call(o, dm.time_delay, f1, f3)
         b, _ = ctx.call(o, dm.time_delay, f1, f2)
         c, _ = ctx.call(o, dm.time_delay, f2, f3)
-        if None not in (a, b, c):
+        if a is not None and b is not None and c is not None:
             ctx.count("oracle[additivity]")
             dmv = oracles.dm_value(dm)
             bound = float(sum(oracles.delay_err_bound(dmv, F(float(x)), F(float(y))) for x, y in ((fs[0], fs[2]), (fs[0], fs[1]), (fs[1], fs[2])))) * 4
